@@ -9,7 +9,6 @@ import (
 	"go/types"
 	"sort"
 	"strings"
-	"sync"
 
 	"golang.org/x/tools/go/ssa"
 
@@ -66,6 +65,9 @@ type Graph struct {
 	// pathCells: during a path search, what the path being extended last stored into each tracked local cell
 	// (error-typed cells with several stores); consulted by ErrEdgeOnPath
 	pathCells map[cellKey]ssa.Value
+	// per-graph caches (never global: a global map keyed by SSA objects keeps every loaded program alive)
+	cycleCache   map[*ssa.BasicBlock]bool
+	trackedCache map[*ssa.Alloc]bool
 	Root  *Frame
 }
 
@@ -505,7 +507,7 @@ func (g *Graph) FindPath(from []Node, avoid func(Node) bool, target func(Node) b
 		g.pathCells = decodeCells(cur.cells)
 		cells := cur.cells
 		if st, ok := n.Instr.(*ssa.Store); ok {
-			if al, ok := st.Addr.(*ssa.Alloc); ok && trackedCell(al) {
+			if al, ok := st.Addr.(*ssa.Alloc); ok && g.trackedCell(al) {
 				cells = setCell(cells, cellKey{n.F, al}, st.Val)
 			}
 		}
@@ -513,7 +515,7 @@ func (g *Graph) FindPath(from []Node, avoid func(Node) bool, target func(Node) b
 			var v ssa.Value
 			whenTrue, ok := false, false
 			if g.Learn {
-				v, whenTrue, ok = stableTest(iff.Cond)
+				v, whenTrue, ok = g.stableTest(iff.Cond)
 			}
 			// a test of an error variable is a test of the call result the path stored there last: two tests of
 			// the same result agree (always on: such tests are few)
@@ -568,14 +570,12 @@ func (g *Graph) FindPath(from []Node, avoid func(Node) bool, target func(Node) b
 	return nil
 }
 
-var cycleMu sync.Mutex
-var cycleCache = map[*ssa.BasicBlock]bool{}
-
 // onCycle: b can reach itself.
-func onCycle(b *ssa.BasicBlock) bool {
-	cycleMu.Lock()
-	defer cycleMu.Unlock()
-	if r, ok := cycleCache[b]; ok {
+func (g *Graph) onCycle(b *ssa.BasicBlock) bool {
+	if g.cycleCache == nil {
+		g.cycleCache = map[*ssa.BasicBlock]bool{}
+	}
+	if r, ok := g.cycleCache[b]; ok {
 		return r
 	}
 	seen := map[*ssa.BasicBlock]bool{}
@@ -594,7 +594,7 @@ func onCycle(b *ssa.BasicBlock) bool {
 		seen[x] = true
 		work = append(work, x.Succs...)
 	}
-	cycleCache[b] = r
+	g.cycleCache[b] = r
 	return r
 }
 
@@ -603,15 +603,12 @@ type cellKey struct {
 	al *ssa.Alloc
 }
 
-var trackedMu sync.Mutex
-var trackedCache = map[*ssa.Alloc]bool{}
-
-// trackedCell: a local cell of type error with more than one store whose address does not escape into a call
-// (a named result captured by a deferred closure is read there, not written).
-func trackedCell(al *ssa.Alloc) bool {
-	trackedMu.Lock()
-	defer trackedMu.Unlock()
-	if r, ok := trackedCache[al]; ok {
+// trackedCell: a local cell of type error with more than one store.
+func (g *Graph) trackedCell(al *ssa.Alloc) bool {
+	if g.trackedCache == nil {
+		g.trackedCache = map[*ssa.Alloc]bool{}
+	}
+	if r, ok := g.trackedCache[al]; ok {
 		return r
 	}
 	r := false
@@ -624,7 +621,7 @@ func trackedCell(al *ssa.Alloc) bool {
 		}
 		r = n >= 2
 	}
-	trackedCache[al] = r
+	g.trackedCache[al] = r
 	return r
 }
 
@@ -675,7 +672,7 @@ func (g *Graph) errCellTest(f *Frame, cond ssa.Value) (ssa.Value, bool, bool) {
 		return nil, false, false
 	}
 	in, isInstr := v.(ssa.Instruction)
-	if !isInstr || in.Block() == nil || onCycle(in.Block()) {
+	if !isInstr || in.Block() == nil || g.onCycle(in.Block()) {
 		return nil, false, false
 	}
 	if b.Op == token.EQL {
@@ -728,7 +725,7 @@ func (f *Frame) ErrEdgeOnPath(iff *ssa.If, idx int) (call *ssa.Call, nonNil bool
 
 // stableTest: cond (through negations) compares a parameter or free variable with nil, or is a boolean
 // parameter or free variable; returns the value and the truth of "v != nil" / "v" when cond is true.
-func stableTest(cond ssa.Value) (ssa.Value, bool, bool) {
+func (g *Graph) stableTest(cond ssa.Value) (ssa.Value, bool, bool) {
 	truth := true
 	for i := 0; i < 4; i++ {
 		if u, ok := cond.(*ssa.UnOp); ok && u.Op == token.NOT {
@@ -743,7 +740,7 @@ func stableTest(cond ssa.Value) (ssa.Value, bool, bool) {
 			return true
 		case ssa.Instruction:
 			// computed once per activation: the defining block is on no cycle
-			return x.Block() != nil && !onCycle(x.Block())
+			return x.Block() != nil && !g.onCycle(x.Block())
 		}
 		return false
 	}
